@@ -143,22 +143,24 @@ Theorem C03_unmerge_sound : forall (E : list N) (lib : library) (T : list nat),
   (forall r, In r T -> r < length E) ->
   let lib' := unmerge E lib T in
   length (l_match lib') = length E /\ length (l_subs lib') = length E /\
-  (forall r, In r T -> exists q, nth_error (l_match lib') r = Some q /\ length (l_uniq lib) <= q /\
+  (forall r, In r T -> exists q, nth_error (l_match lib') r = Some q /\
                                  nth_error (l_uniq lib') q = Some (nth r E 0%N) /\ nth_error (l_subs lib') r = Some []) /\
   (forall i, ~ In i T -> nth_error (l_match lib') i = nth_error (l_match lib) i /\
                          nth_error (l_subs lib') i = nth_error (l_subs lib) i) /\
   (forall q, q < length (l_uniq lib) -> nth_error (l_uniq lib') q = nth_error (l_uniq lib) q) /\
-  (NoDup (l_uniq lib) -> (forall r, In r T -> ~ In (nth r E 0%N) (l_uniq lib)) -> NoDup (l_uniq lib')).
+  (NoDup (l_uniq lib) -> NoDup (l_uniq lib')).
 Proof. exact unmerge_sound. Qed.
 Print Assumptions C03_unmerge_sound.
 
-(* without that side condition the appended unique can repeat an existing one (model-level witness:
-   check_results never tests the new strings against the existing unique list) *)
-Theorem C03_unmerge_can_duplicate : exists (E : list N) (lib : library) (T : list nat),
-  NoDup (l_uniq lib) /\ length (l_match lib) = length E /\ length (l_subs lib) = length E /\
-  (forall r, In r T -> r < length E) /\ ~ NoDup (l_uniq (unmerge E lib T)).
-Proof. exact unmerge_can_duplicate. Qed.
-Print Assumptions C03_unmerge_can_duplicate.
+(* the unique list written at the very end is duplicate-free (an un-merged function whose own string is
+   already a unique is matched to that entry, not appended again) *)
+Theorem C03_final_uniques_distinct : forall cp mp E xo os perm cancel check T o,
+  main cp mp E xo os perm cancel check T = Some o ->
+  length xo <= length E -> (forall r, In r T -> r < length E) ->
+  Permutation perm (seq 0 (length (uniq_keys N.eqb (o_fun o)))) ->
+  NoDup (l_uniq (o_final o)).
+Proof. exact final_uniques_distinct. Qed.
+Print Assumptions C03_final_uniques_distinct.
 
 (* ---------------------------------------------------------------- the library *)
 (* For every function i, with its own string E[i] (all_equations), its final match q, unique u and row c:
@@ -208,7 +210,8 @@ Example C03_ex_library : forall i, i < 4 ->
                 (has_nan c = true -> ex_npar u < ex_npar (nth i ex_E 0%N)) /\
                 (has_nan c = false -> forall theta, ex_den (nth i ex_E 0%N) (compose (Z * Z) ex_sden c theta) = ex_den u theta).
 Proof. exact ex_library. Qed.
-(* un-merge on concrete files: function 1 gets its own string back as a new unique *)
-Example C03_ex_unmerge : unmerge [4; 9; 4]%N (mk_lib [6; 8]%N [1; 0; 1] [[3%N]; [2%N]; [3%N]]) [1]
-                         = mk_lib [6; 8; 9]%N [1; 2; 1] [[3%N]; []; [3%N]].
+(* un-merge on concrete files: function 1 gets its own string back as a new unique; function 2, whose own
+   string 8 is already a unique, is matched to that entry and nothing is appended for it *)
+Example C03_ex_unmerge : unmerge [4; 9; 8]%N (mk_lib [6; 8]%N [1; 0; 0] [[3%N]; [2%N]; [3%N]]) [1; 2]
+                         = mk_lib [6; 8; 9]%N [1; 2; 1] [[3%N]; []; []].
 Proof. vm_compute. reflexivity. Qed.
